@@ -14,7 +14,7 @@ open Taurex.NpInterp (npInterp)
 
 section
 variable {α : Type} [Add α] [Sub α] [Mul α] [Div α] [Neg α] [LT α] [LE α]
-  [DecidableLT α] [DecidableLE α] [OfNat α 0] [OfNat α 1] [OfNat α 2]
+  [DecidableLT α] [DecidableLE α] [OfNat α 0] [OfNat α 1] [OfNat α 2] [OfNat α 4] [OfNat α 5]
 
 /-- `arr.max()` (first element as seed; the code never calls it on an empty array) -/
 def maxL (l : List α) : α := l.foldl (fun a b => if a ≤ b then b else a) (l.getD 0 0)
@@ -22,8 +22,14 @@ def maxL (l : List α) : α := l.foldl (fun a b => if a ≤ b then b else a) (l.
 /-- `arr.min()` -/
 def minL (l : List α) : α := l.foldl (fun a b => if b ≤ a then b else a) (l.getD 0 0)
 
-/-- the margin `compute_bin_edges(wngrid)[-1].max()` -/
-def clipMargin (wngrid : List α) : α := maxL (computeBinEdges wngrid).2
+/-- the widest requested bin `wnwidths.max()`, `wnwidths = compute_bin_edges(wngrid)[-1]` -/
+def widestBin (wngrid : List α) : α := maxL (computeBinEdges wngrid).2
+
+/-- the margin of the clip, `1.25*wnwidths.max()` (`1.25` is written `5/4`: the same number on every carrier).
+    The outermost kept native points get their bin widths re-derived from one neighbour; with native spacing below
+    half the widest bin `W` those bins reach up to `3/4·W` into the clip interval, a requested bin sticks out of the
+    requested range by up to `W/2`: hence `5/4·W` (`Props/C13.lean:bin_clip_eq_property`). -/
+def clipMargin (wngrid : List α) : α := 5 / 4 * widestBin wngrid
 
 /-- membership test of the clip: `(native >= wn_min) & (native <= wn_max)` -/
 def inClip (wngrid : List α) (x : α) : Bool :=
@@ -31,6 +37,18 @@ def inClip (wngrid : List α) (x : α) : Bool :=
 
 /-- `clip_native_to_wngrid(native_grid, wngrid)` -/
 def clipNative (native wngrid : List α) : List α := native.filter (inClip wngrid)
+
+/-- the pre-fix margin (pinned tree): the widest bin itself, kept to state and replay the defect repaired by the
+    /repo commit "fix: clip the native grid with a margin of 1.25 times the widest requested bin"
+    (`Props/C13.lean:bin_clip_condition_sharp`) -/
+def clipMarginPinned (wngrid : List α) : α := widestBin wngrid
+
+/-- the pre-fix membership test -/
+def inClipPinned (wngrid : List α) (x : α) : Bool :=
+  decide (minL wngrid - clipMarginPinned wngrid ≤ x) && decide (x ≤ maxL wngrid + clipMarginPinned wngrid)
+
+/-- the pre-fix `clip_native_to_wngrid` -/
+def clipNativePinned (native wngrid : List α) : List α := native.filter (inClipPinned wngrid)
 
 /-- `np.array_equal` on 1-D arrays -/
 def eqL : List α → List α → Bool
